@@ -304,16 +304,40 @@ def _case_hist(rng, regime):
     ops = []
     nops = rng.randint(2, 4)
     bad_at = rng.randrange(nops) if rng.random() < 0.85 else -1      # most histories contain a rejected call
+    tiny_T = False
     for k in range(nops):
         name = rng.choice(["obs", "obs", "obs", "tr", "tr", "rw3", "rw2"]) if k != bad_at else rng.choice(["obs", "obs", "tr"])
+        if name == "rw3" and tiny_T:
+            # folding a 3-D reward with transitions that contain entries of 2^-21..2^-23 can give a tiny reward,
+            # which the sparse model's setRewardFunction(container) legitimately drops (|r| <= 1e-6): use the
+            # matrix overload (stored as is) so that dense and sparse keep holding the same numbers
+            name = "rw2"
         if name in ("obs", "tr"):
             mo = _random_model(rng, S, A, O, den, rng.choice([0.0, 0.3, 0.6]))
             if mo is None:
                 return None
             tab = mo[1] if name == "obs" else mo[0]
+            ovl = rng.choice(["c", "m"])
             if k == bad_at or rng.random() < 0.15:
                 tab = _corrupt(rng, tab, den)
-            ops.append((name, rng.choice(["c", "m"]), [x for M in tab for r in M for x in r]))
+            elif regime == "dy" and rng.random() < 0.45:
+                # valid table with tiny positive entries 2^-21 .. 2^-23 (below the 1e-6 the sparse CONTAINER
+                # setters drop), offered through the Eigen-matrix overloads, which must store exactly what they get
+                ovl = "m"
+                if name == "tr":
+                    tiny_T = True
+                tab = [[list(r) for r in M] for M in tab]
+                for _ in range(rng.randint(1, 3)):
+                    M = tab[rng.randrange(len(tab))]; row = M[rng.randrange(len(M))]
+                    zeros = [j for j in range(len(row)) if row[j] == 0]
+                    if not zeros:
+                        continue
+                    # 2^-21 .. 2^-23: below 1e-6, and b (6 bits) * T (23) * O (23) still fits 53 bits exactly
+                    e = Fraction(1, 1 << rng.randint(21, 23))
+                    big = max(range(len(row)), key=lambda j: row[j])
+                    row[rng.choice(zeros)] = e
+                    row[big] -= e
+            ops.append((name, ovl, [x for M in tab for r in M for x in r]))
         elif name == "rw3":
             R3 = _rewards(rng, S, A, regime)
             ops.append((name, "c", [x for Rs in R3 for r in Rs for x in r]))
